@@ -295,6 +295,18 @@ def run(ctx):
                 pl_ = a_.get("move") or a_.get("copy") or {}
                 if any(isinstance(e_, dict) and e_.get("f") == "new" and "CompareExchangeError" in str(e_.get("of", "")) for e_ in (pl_.get("pr") or [])):
                     own.append((c_.bb, c_.line))
+        # handing the unpublished block to drop() is just releasing it early
+        dropped_ = set()
+        for c_ in b.calls():
+            if c_.is_("mem::drop") and c_.args:
+                l_ = (c_.args[0].get("move") or {}).get("l")
+                ds_ = [d for d in b.defs().get(l_, []) if d[0] == "assign"] if l_ is not None else []
+                for d in ds_:
+                    dropped_.add((d[1], d[3].get("ln")))
+                pl_ = c_.args[0].get("move") or {}
+                if any(isinstance(e_, dict) and e_.get("f") == "new" for e_ in (pl_.get("pr") or [])):
+                    dropped_.add((c_.bb, c_.line))
+        own = [o for o in own if o not in dropped_]
         chk.ob("C05.c", f"{bpush.path} [a lost install continues with the current tail]", not own, "the error's `new` field (the pusher's own block) is never used" if not own else "after a failed install the pusher continues with its own unpublished block (`e.new`) instead of the installed one (`e.current`): what it pushes there is linked from nowhere and is never read or cleared", f"{bpush.file}:{own[0][1]}" if own else bpush.loc(), nontrivial=False)
 
     # ---------------- C05.d
